@@ -228,6 +228,14 @@ def voicesBody : List Voice → Expr → Expr
   | [], out => out
   | v :: vs, out => .letE v.name (.call v.f [.lit v.c] v.site) (voicesBody vs out)
 
+/-- the contexts the program that contains a voice ALONE supplies to the voice's body, sample after sample: time `t, t+1, …`,
+the parameter bound to the constant in an otherwise empty store (what `fn dsp(){ f(c) }` does; the oracle of the C07 check) -/
+def voiceSamples (d : FnDecl) (c : UInt64) (sr : UInt64) : Nat → Nat → List (Rt × Env × Store)
+  | _, 0 => []
+  | t, k + 1 =>
+    (⟨natToF64Bits t, sr⟩, (bindAll [] [] d.params [.num c]).1, (bindAll [] [] d.params [.num c]).2) ::
+      voiceSamples d c sr (t + 1) k
+
 /-- a program that does not compile (syntax error, …): it has no published layout, so swapping to it is refused -/
 def brokenProg : Prog := ⟨[], [], ⟨"dsp", [], .call "" [] 0, none⟩⟩
 
